@@ -11,7 +11,7 @@ from .. import gen, build
 from ..mapmodel import MapModel
 
 ID = "C12"
-CASES = {"quick": 1500, "thorough": 30000}
+CASES = {"quick": 3000, "thorough": 40000}
 MIN_CASES_PER_SHARD = 20
 CASE_TIMEOUT = 60
 RULE = ("one case = one integer-labelled random directed graph (3..12 nodes, one-way and two-way streets, anisotropic extent so that "
